@@ -367,7 +367,10 @@ def run_harness(progs, bound, opcode, p: core.Part, max_schedules=None):
         # the interpreter instruments a code object for opcode events lazily: one discarded execution so that
         # the first recorded trace and its replay see the same instrumentation state
         make_run(())
-    n, capped = e3.explore(make_run, bound, on_execution, max_schedules=max_schedules)
+    try:
+        n, capped = e3.explore(make_run, bound, on_execution, max_schedules=max_schedules)
+    finally:
+        sched.close()  # the scheduler's parked worker threads
     for k in outcomes:
         p.sig(("conc", progs, k))
     p.count("schedules", n)
